@@ -134,6 +134,10 @@ func getService(s Side, nodeMask int) (*service, error) {
 	if sv, ok := svcCache[key]; ok {
 		return sv, nil
 	}
+	if len(svcCache) >= 256 {
+		// keep the heap small: every case empties the handshake pool with two collections
+		svcCache = map[string]*service{}
+	}
 	acc := accounts[s.Acc%nAccounts]
 	ss := secureservice.New()
 	own := s.Version
